@@ -61,7 +61,8 @@ void big_automorphism__c(const MODULE* module, int64_t p, VEC_ZNX_BIG* res, uint
       __CPROVER_requires(REQ_MODULE && res_size == RS && a_size == AS && REQ_VROT && (p & 1) == 1 && AUT_REL(p, NN))
       __CPROVER_requires(REQ_RES_BIG) __CPROVER_requires(REQ_A_BIG) __CPROVER_requires(REQ_GHOST_(NN))
       __CPROVER_assigns(__CPROVER_object_upto(res, RES_BYTES_(NN)))
-      __CPROVER_ensures(RS == 0 || RI64[GL * NN + (GT & (NN - 1))] == SGNV(GT < NN || GL >= AS, A_AT_IDX_(AI64, NN, G)))
+      __CPROVER_ensures(RS == 0 || GL >= AS || RI64[GL * NN + (GT & (NN - 1))] == SGNV(GT < NN, A_AT_IDX_(AI64, NN, G)))
+      __CPROVER_ensures(RS == 0 || GL < AS || RI64[GL * NN + G] == 0)
       __CPROVER_ensures(ENS_TAIL_(RI64, NN)); /*@big_automorphism:C09,C08,C13*/
 
 #define BGHOSTS() do { SET_AUT_GHOSTS(); GL = nondet_u64(); GPAD = nondet_u64(); GX = nondet_u64(); } while (0)
